@@ -146,3 +146,24 @@ func TypedOnRemoteUpdate(obj interface{}, fn func(interface{})) bool {
 	m.Call([]reflect.Value{f})
 	return true
 }
+
+// Fields lists the exported pointer fields of the struct v points to (the typed handles a constructor returns next
+// to the generic object: service.Lightbulb.On, accessory.Switch.Switch, …), in declaration order.
+func Fields(v interface{}) (names []string, vals []interface{}) {
+	rv := reflect.ValueOf(v)
+	for rv.Kind() == reflect.Ptr && !rv.IsNil() {
+		rv = rv.Elem()
+	}
+	if rv.Kind() != reflect.Struct {
+		return nil, nil
+	}
+	for i := 0; i < rv.NumField(); i++ {
+		f := rv.Type().Field(i)
+		if f.PkgPath != "" || f.Anonymous || rv.Field(i).Kind() != reflect.Ptr || rv.Field(i).IsNil() {
+			continue
+		}
+		names = append(names, f.Name)
+		vals = append(vals, rv.Field(i).Interface())
+	}
+	return names, vals
+}
